@@ -252,10 +252,13 @@ PROPS = {
   'assumptions': ['the first image of an animation covers the canvas (sub-frame setters are applied from the second image on)'],
  },
  'C19': {
-  'level_text': 'PARTIAL. Coq theorem shared with C12 (closed under the global context): the Writer model emits exactly one IEND, last, for every configuration and declared history (so Ok from finish of a history without sink failure is a complete '
-                'stream). The rest of the property - no panic for arbitrary op sequences, clean errors under sink failures at every call index (once / permanently), sequence validation, no second IEND from Drop - is about Rust '
-                'Drop order and io::Error plumbing which the chunk-level model does not represent; it is decided on every run by fault enumeration: every history is replayed with the sink failing at each of its calls.',
-  'level_note': 'Trusted: hand model of the Writer tied by correspondence (C12); fault-injecting sink harness/src/c12.rs. Known findings listed in known_findings.json: sink failures swallowed after StreamWriter::finish; validation skipped by '
+  'level_text': 'PARTIAL. Coq theorems (closed under the global context) on the chunk-level models of the Writer, incl. Model/WriterFail.v = the Writer over a sink that starts refusing writes after any number of chunks, with or without '
+                'sequence validation, the history ending in finish or in drop: (1) the sink accepts IEND at most once and nothing after it, for every history and every failure point; (2) when finish returns Ok no call of the history met a '
+                'refused write and the sink holds exactly what a healthy sink holds (every chunk of every image taken, and IEND); (3) with sequence validation finish returning Ok means the complete conformant stream of the declared images, '
+                'and a history in which every call returns Ok has the declared number of images. Tied to the crate by replaying every history with the sink refusing at every chunk boundary (results of all calls + chunks held by the sink '
+                'vs the extracted model). The rest of the property - no panic for arbitrary op sequences, failures in the middle of a chunk, the stream writer\'s own finish/Drop path, setters, raw/text chunks - is decided on every run by '
+                'fault enumeration: every history is replayed with the sink failing at each of its calls (once / permanently).',
+  'level_note': 'Trusted: hand models of the Writer (Model/Encoder.v, Model/WriterFail.v) tied by correspondence; fault-injecting sink harness/src/c12.rs. Known findings listed in known_findings.json: sink failures swallowed after StreamWriter::finish; validation skipped by '
                 'into_stream_writer; frame miscount of stream writers on animated encoders. Three defects repaired by fix: commits (size overflow, tiny chunk buffer panic/abort, first streamed image not validated).',
   'gen_items': [],
   'model_name': 'Model/Encoder.v (shared with C12)',
